@@ -336,7 +336,7 @@ func TestVF_C03(t *testing.T) {
 		"x 12 (thorough 24) configurations of {eager, lazy buf 1/2/3/20} x ResponseBatchSize {0,1,2,5,64}, PRNG delays in every Recv, GOMAXPROCS cycled 1/2/4/16; " +
 		"oracle: flattened response == reference model (label sets strictly increasing, each once, exactly the distinct chunks (range+bytes) of all stores, time ordered, no error/warning) for every configuration; " +
 		"distinct = hash of scripted streams+configuration; non-trivial = a label set held by >= 2 streams or split over frames; signature = order in which the stores' frames were pulled")
-	n := r.N(400, 12000)
+	n := r.N(400, 6000)
 	perScenario := r.N(12, 24)
 	r.Require(int64(n*perScenario), n*perScenario/3)
 	r.Assume("each store streams label-sorted series, a series' frames are consecutive, chunk bytes determine the chunk's time range (StoreAPI contract)")
